@@ -58,7 +58,7 @@ def _mk_string(si: int, ci: int):
     @obligation(prop="C05", name="string_exact_s%d_c%d" % (si, ci), group="string_exact",
                 sites=("accept", "reject"), regions=("strip_chars_then_case",),
                 encodes=["cincoconfig.fields.string_field.StringField._validate", "cincoconfig.core.Field.validate"],
-                budget={"quick": 280, "thorough": 1500}, may_be_partial=True,
+                budget={"quick": 500, "thorough": 1500}, may_be_partial=True,
                 what="StringField(min_len, max_len in Optional[0..3], choices none|2 strings, required, "
                      "transform_strip=%r, transform_case=%r) on a symbolic string |v|<=2 (full Unicode model): accepts "
                      "exactly what the documented option semantics accept, returns the documented normal form, and "
@@ -485,4 +485,64 @@ def _codec_inverse(b1: bytes, b2: bytes, n: int) -> bool:
         same = (dict(back) == dict(val)) if key.startswith("d") else ([list(i) if isinstance(i, list) else i for i in back]
                                                                       == [list(i) if isinstance(i, list) else i for i in val])
         hold("rt", same, lambda: "%s: to_python(to_basic(%r)) = %r (on-disk %r)" % (key, val, back, basic))
+    return True
+
+
+# --------------------------------------------------------------------------- validation has no memory
+@obligation(prop="C05", sites=("second",), budget={"quick": 200, "thorough": 400},
+            encodes=["cincoconfig.fields.net_field.IPv4NetworkField._validate",
+                     "cincoconfig.fields.string_field.StringField._validate"],
+            what="the verdict of a field depends only on its own options and the value, not on what other field "
+                 "instances (or the same instance) validated before: a permissive field first validates v, then a "
+                 "strict field of the same class must still judge v by its own options (IPv4Network prefix bounds, "
+                 "String choices/length, Int bounds, Hostname allow_ipv4); bounds symbolic, order symbolic")
+def validation_has_no_memory(which: int, p: int, lo: Optional[int], hi: Optional[int], strict_first: bool) -> bool:
+    """
+    pre: 0 <= which <= 3 and 0 <= p <= 32
+    pre: (lo is None or 0 <= lo <= 32) and (hi is None or 0 <= hi <= 32)
+    post: _
+    """
+    from cincoconfig import IntField
+    cfg = _cfg()
+    if which == 0:
+        ptxt = None
+        for cand in range(0, 33):
+            if p == cand:
+                ptxt = str(cand)
+        v = "0.0.0.0/" + ptxt
+        loose, strict = IPv4NetworkField(), IPv4NetworkField(min_prefix_len=lo, max_prefix_len=hi)
+        want = (lo is None or p >= lo) and (hi is None or p <= hi)
+    elif which == 1:
+        v = "abc" if p % 2 else "zz"
+        loose, strict = StringField(), StringField(choices=["abc"], max_len=hi)
+        want = v == "abc" and (hi is None or 3 <= hi)
+        if lo is not None:
+            skip("unused")
+    elif which == 2:
+        v = p
+        loose, strict = IntField(), IntField(min=lo, max=hi)
+        want = (lo is None or p >= lo) and (hi is None or p <= hi)
+    else:
+        v = "10.0.0.1"
+        loose, strict = HostnameField(allow_ipv4=True), HostnameField(allow_ipv4=False)
+        want = False
+        if lo is not None or hi is not None or p:
+            skip("unused")
+
+    def verdict(field):
+        try:
+            field.validate(cfg, v)
+            return True
+        except ValueError:
+            return False
+    if strict_first:
+        first = verdict(strict)
+        hold("second", first == want, "strict field misjudges on first use")
+        hold("second", verdict(loose), "permissive field rejected a valid value")
+        hold("second", verdict(strict) == want, "strict field changed its verdict after another field validated the value")
+    else:
+        hold("second", verdict(loose), "permissive field rejected a valid value")
+        hold("second", verdict(strict) == want,
+             lambda: "after a permissive field accepted %r, the strict field's verdict is wrong (expected accept=%r)" % (v, want))
+        hold("second", verdict(strict) == want, "verdict not repeatable")
     return True
